@@ -961,6 +961,9 @@ pub fn off_path_challenge_native(n: u8) -> u32 {
     conn.spaces[SpaceId::Initial].crypto = None;
     conn.spaces[SpaceId::Handshake].crypto = None;
     conn.path.mtud = mtud::mk_disabled();
+    // the connection has been talking to its peer for a while
+    conn.path.total_recvd = 10_000;
+    conn.path.total_sent = 10_000;
     let now = crate::verif::mk_instant(51, 0).unwrap();
     let victim = addr(66, 7777);
     let (mut received, mut sent) = (0usize, 0usize);
@@ -1258,6 +1261,27 @@ pub fn unprotected_packet_native(mode: u8) -> u32 {
             assert!(conn.retry_src_cid == Some(ConnectionId::new(&[0x77; 8])), "a handshaking client did not follow a valid first Retry");
             16
         }
+    }
+}
+
+/// Native replay body for the E2 query `e2_read_crypto_buffer_limit` (C06): a client that has consumed no
+/// handshake data gets a CRYPTO frame that starts `start_below` bytes below the configured buffer limit and is
+/// `len` bytes long.  If it ends beyond the limit it is refused with CRYPTO_BUFFER_EXCEEDED, wherever it starts.
+pub fn read_crypto_limit_native(start_below: u16, len: u16) -> u32 {
+    let mut conn = mk_conn(false, false);
+    let limit = conn.config.crypto_buffer_size as u64;
+    if start_below as u64 > limit {
+        return 0;
+    }
+    let offset = limit - start_below as u64;
+    let frame = frame::Crypto { offset, data: Bytes::from(vec![0u8; len as usize]) };
+    let r = conn.read_crypto(SpaceId::Initial, &frame, len as usize);
+    if offset + len as u64 > limit {
+        assert!(matches!(&r, Err(e) if e.code == TransportErrorCode::CRYPTO_BUFFER_EXCEEDED), "a CRYPTO frame ending {} bytes beyond the buffer limit was accepted", offset + len as u64 - limit);
+        1
+    } else {
+        assert!(!matches!(&r, Err(e) if e.code == TransportErrorCode::CRYPTO_BUFFER_EXCEEDED), "a CRYPTO frame within the buffer limit was refused");
+        2
     }
 }
 
